@@ -808,7 +808,7 @@ impl Expression {
                         }
                         return Some(Box::new(num.into_expression(pos..ps.position())));
                     }
-                    Some('x') => {
+                    Some('x') | Some('X') => {
                         // parse as HEX
                         ps.next(); // 'x'
                         let mut num = RadixNumber::new(4);
@@ -854,7 +854,7 @@ impl Expression {
                         }
                         return Some(Box::new(num.into_expression(pos..ps.position())));
                     }
-                    Some('e') | Some('.') | Some('8') | Some('9') => {
+                    Some('e') | Some('E') | Some('.') | Some('8') | Some('9') => {
                         // do nothing
                     }
                     Some(x) if is_ident_char(x) => {
@@ -877,9 +877,12 @@ impl Expression {
             let mut int_overflow = false;
             loop {
                 let next = ps.next().unwrap();
-                if next == 'e' {
+                if next == 'e' || next == 'E' {
                     int = None;
-                    ps.consume_str("-");
+                    // (the exponent may carry either sign)
+                    if ps.consume_str("-").is_none() {
+                        ps.consume_str("+");
+                    }
                     let peek = ps.peek::<0>()?;
                     if !('0'..='9').contains(&peek) {
                         ps.add_warning_at_current_position(
@@ -918,7 +921,11 @@ impl Expression {
                 if !is_ident_char(peek) && peek != '.' {
                     break;
                 }
-                if ('0'..='9').contains(&peek) || (int.is_some() && peek == '.') || peek == 'e' {
+                if ('0'..='9').contains(&peek)
+                    || (int.is_some() && peek == '.')
+                    || peek == 'e'
+                    || peek == 'E'
+                {
                     // empty
                 } else {
                     ps.add_warning_at_current_position(
